@@ -22,6 +22,7 @@ def run(col, configs, tier):
         guarded(col, sep.rule_peek_dispatch, facts)
         guarded(col, sep.rule_end_of_buffer_neutral, facts)
         guarded(col, sep.rule_lookaround_kind, facts)
+        guarded(col, sep.rule_run_skip_bound, facts)
         guarded(col, sep.rule_take_n_twins, facts)
         guarded(col, sep.rule_window_keeps_count, facts)
         guarded(col, X.rule_suffix_step, facts)
